@@ -68,7 +68,9 @@ func c10Property(name string) (*schemaparser.Schema, c10Expect) {
 	case 1: // integer with default
 		s.Types = []string{"integer"}
 		if v.Bool("hasdefault") {
-			switch v.Choose(3) {
+			switch v.Choose(4) {
+			case 3: // beyond float64's 53 bits of precision
+				s.Default, e.def = json.Number("9007199254740993"), int64(9007199254740993)
 			case 0:
 				s.Default, e.def = json.Number("42"), int64(42)
 			case 1:
